@@ -15,7 +15,7 @@ MANIFEST = {
 META = {
     "modules": ["pkgcore.ebuild.misc"],
     "functions": ["misc.ChunkedDataDict.add_bare_global/add_global/update_from_stream/merge/freeze/clone/optimize/render_pkg", "misc._build_cp_atom_payload", "misc._cached_build_cp_atom_payload", "misc.incremental_chunked"],
-    "bounds": {"quick": "3 entries (first: global or =cat/pkg-1; third from 2 scopes x 5 token sets), 3 probe packages, 2 pre_defaults", "thorough": "3 fully varied entries"},
+    "bounds": {"quick": "3 entries (first: global or =cat/pkg-1; third: global or =cat/pkg-1 x 6 token sets), 3 probe packages, 2 pre_defaults", "thorough": "3 fully varied entries"},
     "outside": ["PayloadDict / render_to_payload", "histories longer than 3 entries", "more than two USE_EXPAND prefixes", "package_use_splitter text parsing (C13 covers the files)", "domain.get_package_use_unconfigured layering (use.mask/use.force are further ChunkedDataDicts built by the same code)"],
     "assumptions": [],
     "selector_only": True,
@@ -76,7 +76,7 @@ class StackHarness(Harness):
         if ob["full3"]:
             inp.update(s3=eng.int("scope3", 0, len(SCOPES) - 1), t3=eng.int("tokens3", 0, len(TOKENS) - 1))
         else:
-            inp.update(s3=eng.int("scope3", 0, 1), t3=eng.int("tokens3", 0, 4))
+            inp.update(s3=eng.int("scope3", 0, 1), t3=eng.int("tokens3", 0, 5))
         return inp
 
     def body(self, inp):
@@ -85,7 +85,7 @@ class StackHarness(Harness):
         if ob["full3"]:
             e3 = (SCOPES[c["s3"]], TOKENS[c["t3"]])
         else:
-            e3 = (SCOPES[c["s3"]], TOKENS[(0, 4, 6, 8, 9)[c["t3"]]])
+            e3 = (SCOPES[(0, 2)[c["s3"]]], TOKENS[(0, 1, 4, 6, 8, 9)[c["t3"]]])
         entries = [(SCOPES[c["s1"]], TOKENS[c["t1"]]), (SCOPES[c["s2"]], TOKENS[c["t2"]]), e3]
         ch = [mk_entry(*e) for e in entries]
         d = misc.ChunkedDataDict()
